@@ -185,6 +185,46 @@ def run(ctx):
         ctx.ob("R12.3", "stale:" + k, False, "table row no longer matches a function", "tables/c12_id_order.tsv")
     ctx.floor("functions using unstable ids", n_idf, 4)
 
+    # R12.3b: the raw number of a Sierra id (built from interned-id bits) is read only in an enumerated set
+    SIDS = {"cairo_lang_sierra::ids::ConcreteTypeId", "cairo_lang_sierra::ids::ConcreteLibfuncId", "cairo_lang_sierra::ids::FunctionId"}
+    rd = load_table("c12_sierra_id_readers.tsv")
+    used = set()
+    readers = {}
+    from .lib import rvalue_places, place_proj
+    for p, f in F.fns.items():
+        if not f.body:
+            continue
+        for _, _, st in f.stmts():
+            if st[0] != "a":
+                continue
+            for pl in rvalue_places(st[2]):
+                for e in place_proj(pl):
+                    if isinstance(e, list) and e[0] == "f" and e[2] == "id" and e[3] in SIDS and f.is_used(place_local(st[1])):
+                        readers.setdefault(fn_key(f.root if f.kind == "Closure" else p), f)
+    write = os.environ.get("VERIF_C12_WRITE_BASELINE")
+    if write:
+        with open(os.path.join(TABLES, "c12_sierra_id_readers.tsv"), "w") as fh:
+            fh.write("# C12 R12.3b: functions (closures folded into their parent) that read the raw number of a Sierra id. key <TAB> class <TAB> reason\n"
+                     "# classes: E identity (eq/hash/clone); P printing / serialisation of the id itself; H handle round trip or lookup key; R renumbering\n")
+            for k in sorted(readers):
+                cls, why = _classify_id_reader(k)
+                old_row = rd.get(k)
+                if old_row:
+                    cls, why = old_row
+                fh.write("%s\t%s\t%s\n" % (k, cls, why))
+        rd = load_table("c12_sierra_id_readers.tsv")
+    for k, f in sorted(readers.items()):
+        row = rd.get(k)
+        if row:
+            used.add(k)
+            ctx.ob("R12.3", "sierra-id-number:" + k, row[0] != "?", "reads the raw id number; class %s: %s" % row, f.where())
+        else:
+            ctx.ob("R12.3", "sierra-id-number:" + k, False,
+                   "reads the schedule-dependent number of a Sierra id (ids are built from interned-id bits) and is not in the enumerated set", f.where())
+    for k in sorted(set(rd) - used):
+        ctx.ob("R12.3", "stale:" + k, False, "table row no longer matches a function", "tables/c12_sierra_id_readers.tsv")
+    ctx.floor("functions reading Sierra id numbers", len(readers), 20)
+
     # ---------------- R12.4 warm-up
     COMP = "cairo_lang_compiler::"
     for nm in ("warmup_diagnostics_blocking", "warmup_module_discovery_blocking", "warmup_functions_blocking"):
@@ -244,6 +284,22 @@ def run(ctx):
     for k in sorted(set(amb) - used):
         ctx.ob("R12.5", "stale:" + k, False, "table row no longer matches", "tables/c12_ambient.tsv")
     _controls(ctx, F)
+
+
+def _classify_id_reader(k):
+    if " as core::cmp::PartialEq>::eq" in k or " as core::hash::Hash>::hash" in k or " as core::clone::Clone>::clone" in k:
+        return "E", "identity of the id (equality / hash / copy), order-insensitive"
+    if "core::fmt::" in k or "::fmt::fmt" in k or "::serialize" in k or "Felt252Serde" in k:
+        return "P", "prints or serialises the id itself; canonical programs are renumbered first, debug-name programs print names"
+    if "lookup_" in k or "get_type_info" in k or "get_libfunc_signature" in k or "IdAsHashKey" in k or "DebugInfo::extract" in k:
+        return "H", "round trip of the handle back to the interned value, or use as a hash-map key"
+    if "replace_" in k or "Replacer" in k or "type_names" in k or "function_debug_info" in k:
+        return "R", "id replacement / debug info keyed by id: maps each id consistently, no ordering"
+    if "get_entry_points" in k:
+        return "H", "looks up the function index of an entry point by id equality"
+    if "TypeResolver::get_long_id" in k:
+        return "H", "indexes the declaration table by the (canonical, positional) id"
+    return "?", ""
 
 
 def serde_json_features(repo):
